@@ -68,6 +68,7 @@ class Engine:
         self.obligations = []
         self.assumptions_used = {}     # key -> text
         self.spec_mode = 0
+        self.code_quant = 0
         self.exc_codes = {}
         self.exc_parent = {}
         self.cls_codes = {}
@@ -415,6 +416,8 @@ class Engine:
                     and not self.entails(st, inner.t != null()):
                 raise Unsupported(f'possibly-None reference used as {ty}')
             return V(ty, inner.t)
+        if isinstance(ty, TSet) and isinstance(v.ty, TSeq) and v.ty.elem is NONE:
+            return V(ty, z3.K(ty.elem.sort(), z3.BoolVal(False)))      # [] where only membership matters
         if isinstance(ty, TSeq) and isinstance(v.ty, TSeq) and v.ty.elem is NONE:
             return V(ty, z3.Empty(ty.sort()))
         if isinstance(ty, TSeq) and isinstance(v.ty, TTuple) and all(e == ty.elem for e in v.ty.elems):
